@@ -1,5 +1,5 @@
 SPECIFICATION Spec
-CONSTANTS Slack = 0 Calls = {1, 2, 3} Causes = {"app:1:local", "app:2:remote", "idle"}
+CONSTANTS Slack = 0 MinRemote = 5000 Calls = {1, 2, 3} Causes = {"app:1:local", "app:2:remote", "idle"}
 INVARIANTS OneCause RightCause NothingBlockedAfterFanOut
 PROPERTY EventuallyFanned
 CHECK_DEADLOCK FALSE
